@@ -54,6 +54,7 @@ EXTERN_ALLOW_EXACT = {
     "ldexp", "frexp", "scalbn", "copysign",
     # C++ runtime
     "std::terminate()", "__gxx_personality_v0", "__dynamic_cast",
+    "abort",   # -fno-exceptions: libstdc++'s __throw_* helpers end in abort(); thread-safe, no shared state
 }
 EXTERN_ALLOW_PREFIX = (
     "llvm.", "__cxa_", "_Unwind_", "std::__throw_", "std::exception::", "std::bad_",
